@@ -63,26 +63,27 @@ class SimScript:
         self.dts.append(v)
         return v
 
-    def next_job(self, trial_id, start_epoch):
-        """-> (status, [[metric, epoch, elapsed], ...])"""
+    def next_job(self, trial_id, start_epoch, max_epoch=MAX_T):
+        """-> (status, [[metric, epoch, elapsed, cost], ...]); the job trains up to ``max_epoch`` (the value of
+        max_resource_attr in the trial's config, i.e. a rung level for Hyperband) unless it ends earlier"""
         i = len(self.jobs)
         if self.replay is not None:
             job = self.replay["jobs"][i] if i < len(self.replay["jobs"]) else ["Completed", []]
         else:
             p, r = self.profile, self.rng
             u = r.random()
-            room = max(0, MAX_T - start_epoch)
+            room = max(0, min(MAX_T, max_epoch) - start_epoch)
             if u < p.get("p_fail", 0.15):
                 status, n = "Failed", r.choice([0, 0, 1, 2, r.randint(0, room)])
             elif u < p.get("p_fail", 0.15) + p.get("p_early", 0.1):
-                status, n = "Completed", r.choice([0, 1, r.randint(0, room)])
+                status, n = "Completed", r.choice([1, 1, 2, r.randint(0, room)])
             else:
                 status, n = "Completed", room
             n = min(n, room)
             reps, el = [], 0.0
             for k in range(n):
                 el += r.choice([0.25, 1.0, 1.0, 3.0, 7.5])
-                reps.append([r.randint(0, 40) / 4.0, start_epoch + k + 1, el])
+                reps.append([r.randint(0, 40) / 4.0, start_epoch + k + 1, el, r.randint(0, 8) / 4.0])
             job = [status, reps]
         self.jobs.append(job)
         return job[0], [list(x) for x in job[1]]
@@ -106,21 +107,28 @@ def make_sim_backend_class():
             self.live = {}             # trial -> index in self.jobs of its current job
             self.poll_times = []       # simulated time after each poll
             self.checks = []           # (kind, now, polled ids | None, number of jobs scheduled before) at start / resume / poll
+            self.configs = {}          # trial -> config the next job of the trial runs with
+            self.status_after = []     # (call, trial, status the backend shows right after pause_trial / stop_trial)
             self.last_stdout_trial, self.last_stdout_after_stop_all, self.stop_all_called = None, False, False
             self.last_resume_error = None
 
         # ---- the scripted job runner ----------------------------------------------------------------
         def _run_job_and_collect_results(self, trial_id, config=None):
-            status, reps = self.sim_script.next_job(trial_id, self.epoch.get(trial_id, 0))
+            cfg_now = self.configs.get(trial_id) or {}
+            status, reps = self.sim_script.next_job(trial_id, self.epoch.get(trial_id, 0), int(cfg_now.get("epochs", MAX_T)))
             results = []
-            for metric, epoch, elapsed in reps:
+            for rep in reps:
+                metric, epoch, elapsed = rep[0], rep[1], rep[2]
+                cost = rep[3] if len(rep) > 3 else 0.0
                 idx = self.n_reports.get(trial_id, 0)
                 self.n_reports[trial_id] = idx + 1
                 self.epoch[trial_id] = epoch
-                results.append({"m": metric, "epoch": epoch, "elapsed": elapsed, "idx": idx, "trial": trial_id})
+                results.append({"m": metric, "epoch": epoch, "elapsed": elapsed, "idx": idx, "trial": trial_id,
+                                "st_worker_cost": cost})
             job = self.jobs[self.live[trial_id]]
             cfg = self.simulator_config
             job["end"] = job["start"] + (reps[-1][2] if reps else 0.0) + cfg.delay_complete_after_final_report
+            job["last_result_at"] = job["start"] + (reps[-1][2] if reps else 0.0) + cfg.delay_on_trial_result
             job["status"], job["n"] = status, len(reps)
             return {"Completed": Status.completed, "Failed": Status.failed, "Stopped": Status.stopped}[status], results
 
@@ -129,6 +137,11 @@ def make_sim_backend_class():
             self.jobs.append(dict(trial=trial_id, sched=now, start=now + self.simulator_config.delay_start,
                                   end=None, cancelled=None, status=None, n=None))
             self.live[trial_id] = len(self.jobs) - 1
+
+        def _status_after(self, call, trial_id):
+            # the documented hook of the backend API (what stop_all reads): TrialResult of trials with results
+            for tr in self._all_trial_results([trial_id]):
+                self.status_after.append((call, trial_id, scripted.status_name(tr.status)))
 
         def _cancel(self, trial_id):
             if trial_id in self.live:
@@ -158,6 +171,7 @@ def make_sim_backend_class():
         def start_trial(self, config, checkpoint_trial_id=None):
             self.checks.append(("b_start", self.time_keeper.time(), None, len(self.jobs)))
             trial = super().start_trial(config=config, checkpoint_trial_id=checkpoint_trial_id)
+            self.configs[trial.trial_id] = dict(config)
             self._new_job(trial.trial_id)
             self.log(("b_start", trial.trial_id, int(config.get("x", -1)), checkpoint_trial_id))
             return trial
@@ -170,6 +184,8 @@ def make_sim_backend_class():
                 self.last_resume_error = ("unknown" if not (0 <= trial_id < len(self.trial_ids)) else "not_paused", trial_id)
                 raise
             self._paused = tuple(t for t in self._paused if t != trial_id)
+            if new_config is not None:
+                self.configs[trial_id] = dict(new_config)
             self._new_job(trial_id)
             self.log(("b_resume", trial_id, None if new_config is None else int(new_config.get("x", -1))))
             return trial
@@ -177,6 +193,7 @@ def make_sim_backend_class():
         def pause_trial(self, trial_id, result=None):
             self.log(("b_pause", trial_id))
             super().pause_trial(trial_id=trial_id, result=result)
+            self._status_after("pause_trial", trial_id)
             self._cancel(trial_id)
             self._paused = tuple(sorted(set(self._paused) | {trial_id}))
             if result is not None and "epoch" in result:
@@ -185,6 +202,8 @@ def make_sim_backend_class():
         def stop_trial(self, trial_id, result=None):
             self.log(("b_stop", trial_id))
             super().stop_trial(trial_id=trial_id, result=result)
+            if not self.stop_all_called:
+                self._status_after("stop_trial", trial_id)
             self._cancel(trial_id)
 
         def fetch_status_results(self, trial_ids):
@@ -232,10 +251,39 @@ def run_sim_case(case, hard_limit=250):
         scheduler = scripted.make_scheduler_class()(script, log)
     else:
         scheduler = scripted.record_scheduler(
-            tuner_real.build_scheduler(case["scheduler"], case["sched_seed"], case["mode"]), log)
-    recorder = scripted.make_recorder_class()(log, hard_limit=hard_limit)
-    crit = {k: v for k, v in (params.get("criterion") or {}).items() if k in scripted.CRITERION_FIELDS
-            and k not in ("min_metric_value", "max_metric_value")}
+            tuner_real.build_scheduler(case["scheduler"], case["sched_seed"], case["mode"],
+                                       max_resource_attr=case.get("mra", False)), log)
+    class SimRecorder(scripted.make_recorder_class()):
+        """additionally: what the StoppingCriterion fields refer to, at the end of every loop iteration (= the state
+        in which Tuner._stop_condition is evaluated), read from the public TuningStatus API; the wall-clock of a
+        simulated run is the largest st_tuner_time of a delivered result (SimulatorCallback docstring)"""
+        loop_obs, max_tuner_time = None, None
+
+        def on_tuning_start(self, tuner):
+            super().on_tuning_start(tuner)
+            self.loop_obs, self.max_tuner_time = [], None
+
+        def on_trial_result(self, trial, status, result, decision):
+            super().on_trial_result(trial, status, result, decision)
+            t = result.get("st_tuner_time")
+            if t is not None:
+                self.max_tuner_time = t if self.max_tuner_time is None else max(self.max_tuner_time, t)
+
+        def on_loop_end(self):
+            super().on_loop_end()
+            st = self.tuner.tuning_status
+            stats = st.overall_metric_statistics
+            self.loop_obs.append(dict(
+                wallclock=self.max_tuner_time, evaluations=int(stats.count), started=int(st.num_trials_started),
+                completed=int(st.num_trials_completed), finished=int(st.num_trials_finished), cost=float(st.cost),
+                min_metrics={k: float(v) for k, v in stats.min_metrics.items() if k == "m"},
+                max_metrics={k: float(v) for k, v in stats.max_metrics.items() if k == "m"}))
+
+    recorder = SimRecorder(log, hard_limit=hard_limit)
+    crit = {k: v for k, v in (params.get("criterion") or {}).items() if k in scripted.CRITERION_FIELDS}
+    for k in ("min_metric_value", "max_metric_value"):
+        if crit.get(k) is not None:
+            crit[k] = {"m": crit[k]}
     criterion = StoppingCriterion(**crit)
     outcome, aborted = ["normal"], False
     old_folder = os.environ.get("SYNETUNE_FOLDER")
@@ -272,6 +320,7 @@ def run_sim_case(case, hard_limit=250):
             os.environ["SYNETUNE_FOLDER"] = old_folder
     return dict(trace=trace, outcome=outcome, aborted=aborted, iterations=recorder.iterations,
                 jobs=backend.jobs, poll_times=backend.poll_times, checks=backend.checks, occupancy=[],
+                status_after=backend.status_after, loop_obs=recorder.loop_obs, at_exit=recorder.at_exit,
                 record=dict(sim=sim_script.record(), script=script.record()))
 
 
@@ -286,6 +335,18 @@ def check_sim(params, out):
                        (j["cancelled"] is None or j["cancelled"] > now) and (j["end"] is None or j["end"] > now)})
 
     polls = [c for c in out["checks"] if c[0] == "b_fetch"]
+    # ---- the backend does what pause_trial / stop_trial document: status paused / stopped afterwards -----------
+    for call, t, status in out.get("status_after", []):
+        want = "Paused" if call == "pause_trial" else "Stopped"
+        if status != want:
+            bad.append(("after %s(%d) the backend shows status %s (documented: %s)" % (call, t, status, want),
+                        dict(check="lifecycle", event="status_after_" + call, backend="simulator", status=status)))
+            break
+    # ---- every resume_trial targets a trial the backend holds as paused (the scheduler paused it itself) ------
+    if out["outcome"][0] in ("resume_not_paused", "resume_unknown") and not tc.check_discipline(out):
+        bad.append(("run() aborted: resume_trial(%s) raised the backend's assertion (%s) although the scheduler only "
+                    "resumes trials it paused itself" % (out["outcome"][1], out["outcome"][0]),
+                    dict(check="lifecycle", event="resume_of_trial_not_paused_in_backend", backend="simulator")))
     # ---- budget ------------------------------------------------------------------------------------------
     for kind, now, ids, njobs in out["checks"]:
         occ = occupying(now, njobs)
@@ -324,22 +385,103 @@ def gen_sim_case(rng):
                   criterion=dict(max_wallclock_time=float(rng.choice([20, 40, 80])),
                                  max_num_trials_started=rng.choice([4, 8, 15, 25])))
     params["async"] = rng.random() < 0.8
-    d = rng.choice([0.0, 0.05, 0.05, 0.5])
-    delays = dict(delay_on_trial_result=d, delay_complete_after_final_report=d, delay_complete_after_stop=d,
-                  delay_start=d, delay_stop=rng.choice([d, 0.0, 2.0]))
+    if rng.random() < 0.3:
+        d = rng.choice([0.0, 0.05, 0.5])
+        delays = dict(delay_on_trial_result=d, delay_complete_after_final_report=d, delay_complete_after_stop=d,
+                      delay_start=d, delay_stop=d)
+    else:   # all five independent (SimulatorConfig requires result delay <= completion delay)
+        pick = lambda: rng.choice([0.0, 0.05, 0.3, 1.0, 2.5, 6.0])
+        a, b = sorted([pick(), pick()])
+        delays = dict(delay_on_trial_result=a, delay_complete_after_final_report=b, delay_complete_after_stop=pick(),
+                      delay_start=pick(), delay_stop=pick())
     profile = dict(p_fail=rng.choice([0.05, 0.15, 0.3]), p_stop_ext=rng.choice([0.0, 0.05]), p_early=0.1,
                    outside=rng.choice([0.0, 1.0]), p_pause=0.15, p_stop=0.15, p_none=0.02, p_resume=0.4, p_resume_bad=0.0,
                    p_ckpt=0.1)
     return dict(kind="sim", scheduler=sched, sched_seed=rng.randrange(1000), mode=rng.choice(["min", "max"]),
+                mra=(sched.startswith("hyperband") and rng.random() < 0.7),
                 params=params, delays=delays, sleep=rng.choice([0.5, 1.0, 5.0]), profile=profile,
                 seed=rng.getrandbits(48))
 
 
-def run_sim(ctx, replay_cases):
-    cases = replay_cases if replay_cases is not None else [gen_sim_case(ctx.rng) for _ in range(ctx.n(120, 3000))]
+
+# ------------------------------------------------------------------------------------------------------
+# C12 on the simulator: the user's StoppingCriterion (with max_wallclock_time, which SimulatorCallback rewrites
+# onto simulated time) must keep ALL its fields during the run
+# ------------------------------------------------------------------------------------------------------
+# SimulatorCallback._modify_stop_criterion (unchanged /repo) does not carry min_metric_value over and replaces the
+# user's max_metric_value: criteria combining max_wallclock_time with metric thresholds are generated only when
+# this is switched on (see findings/C12-sim-callback-drops-metric-thresholds.json)
+SIM_METRIC_THRESHOLDS = True
+
+
+def gen_sim_case_c12(rng):
+    case = gen_sim_case(rng)
+    crit = dict(max_wallclock_time=float(rng.choice([30, 60, 120, 200])))
+    others = ["max_num_evaluations", "max_num_trials_started", "max_num_trials_completed", "max_num_trials_finished",
+              "max_cost"] + (["min_metric_value", "max_metric_value"] if SIM_METRIC_THRESHOLDS else [])
+    for f in rng.sample(others, rng.choice([1, 1, 1, 2])):
+        crit[f] = {"max_num_evaluations": rng.randint(3, 25), "max_num_trials_started": rng.randint(2, 10),
+                   "max_num_trials_completed": rng.randint(0, 4), "max_num_trials_finished": rng.randint(0, 6),
+                   "max_cost": rng.randint(4, 40) / 4.0, "min_metric_value": rng.randint(1, 6) / 4.0,
+                   "max_metric_value": rng.randint(34, 39) / 4.0}[f]
+    case["params"]["criterion"] = crit
+    case["params"]["max_failures"] = 50
+    case["profile"]["p_fail"] = min(case["profile"]["p_fail"], 0.15)
+    return case
+
+
+def check_sim_criterion(params, out):
+    """At the end of every loop iteration the fields of the ORIGINAL user criterion are re-evaluated from the
+    recorded observables (tuner_cases.expected_criterion; wall-clock = largest simulated time stamp of a delivered
+    result). Once a field holds the loop must end (wait=False) / nothing may be started any more (wait=True), and
+    count budgets are overshot by at most n_workers."""
+    bad = []
+    crit = params.get("criterion") or {}
+    n = params["n_workers"]
+    tr = out["trace"]
+    ends = [i for i, ev in enumerate(tr) if ev[0] == "cb_loop_end"]
+    obs_list = out.get("loop_obs") or []
+    for k, (pos, obs) in enumerate(zip(ends, obs_list)):
+        o = dict(obs)
+        if o["wallclock"] is None:
+            o["wallclock"] = float("-inf")
+        exp = tc.expected_criterion(crit, o)
+        must = [f for f, v in exp.items() if v is True]
+        if not must:
+            continue
+        later = tr[pos + 1:]
+        went_on = any(ev[0] == "cb_loop_start" for ev in later) if not params["wait"] else \
+            any(ev[0] in ("s_suggest", "b_start", "b_resume") for ev in later)
+        if went_on:
+            shown = {a: obs[a] for a in ("wallclock", "evaluations", "started", "completed", "finished", "cost")}
+            shown.update(min_m=obs["min_metrics"].get("m"), max_m=obs["max_metrics"].get("m"))
+            bad.append(("at the end of iteration %d the user's criterion %s holds (%s: %s) but the simulated run went on "
+                        "(%d more iterations)" % (k, crit, must[0], shown, sum(1 for ev in later if ev[0] == "cb_loop_start")),
+                        dict(check="stopping_criterion", field=must[0], backend="simulator")))
+        break
+    at_exit = out.get("at_exit")
+    if at_exit is not None and out["outcome"][0] == "normal":
+        for field, key in (("max_num_trials_started", "started"), ("max_num_trials_completed", "completed"),
+                           ("max_num_trials_finished", "finished")):
+            b = crit.get(field)
+            if b is None or (key != "started" and params["wait"]):
+                continue
+            if at_exit[key] > max(b, 0) + n:
+                bad.append(("%s=%d but %d trials %s at loop exit with n_workers=%d (simulated run)" % (field, b, at_exit[key], key, n),
+                            dict(check="overshoot", field=field, backend="simulator")))
+    return bad
+
+
+def run_sim(ctx, replay_cases, prop="C01"):
+    if replay_cases is not None:
+        cases = replay_cases
+    elif prop == "C12":
+        cases = [gen_sim_case_c12(ctx.rng) for _ in range(ctx.n(120, 3000))]
+    else:
+        cases = [gen_sim_case(ctx.rng) for _ in range(ctx.n(120, 3000))]
     for case in cases:
         out = run_sim_case(case)
-        rep = {k: case[k] for k in ("kind", "scheduler", "sched_seed", "mode", "params", "delays", "sleep")}
+        rep = {k: case.get(k) for k in ("kind", "scheduler", "sched_seed", "mode", "mra", "params", "delays", "sleep")}
         rep["record"] = out["record"]
         ctx.count(rep, nontrivial=tc.nontrivial(out) or any(j["n"] == 0 and j["status"] for j in out["jobs"]))
         ctx.traces_validated += 1
@@ -349,6 +491,12 @@ def run_sim(ctx, replay_cases):
             if j["status"] is not None:
                 ctx.h("sim_jobs", "%s_%s" % (j["status"], "no_report" if j["n"] == 0 else "after_reports")
                       + ("_cancelled" if j["cancelled"] is not None else ""))
+        if prop == "C12":
+            ctx.h("sim_criterion_fields", ",".join(sorted((case["params"].get("criterion") or {}).keys())))
+            for what, sig in check_sim_criterion(case["params"], out):
+                ctx.violation("property", "[simulator backend, %s] %s" % (case["scheduler"], what), case=rep,
+                              signature=dict(sig, scheduler=case["scheduler"]))
+            continue
         problems = check_sim(case["params"], out)
         if not out["aborted"] or not problems:
             problems = problems + tc.check_c01(case["params"], out)
